@@ -87,8 +87,9 @@ Definition bset_a (pc : bapc) (s : bstate) : bstate :=
 
 (** [legacy_ctor]: Connector.__init__ as found gave the device its new connector before the
     connector's event queue existed.  [quiet]: the devices only emit once Bridge.__init__ has
-    returned (a bridge created on a quiet link). *)
-Record bconfig := mkBC { legacy_ctor : bool; quiet : bool }.
+    returned (a bridge created on a quiet link).  [legacy_filter]: Device.put_message as found
+    loaded the message filter twice. *)
+Record bconfig := mkBC { legacy_ctor : bool; quiet : bool; legacy_filter : bool }.
 
 Fixpoint br_next (buf : list frame) : brpc * list frame :=
   match buf with
@@ -97,7 +98,7 @@ Fixpoint br_next (buf : list frame) : brpc * list frame :=
   | Some m :: r => (BR_P Q1 m, r)
   end.
 
-Definition sstep_R (s : side) : side :=
+Definition sstep_R (lf : bool) (s : side) : side :=
   match d_rpc s with
   | BR_Read =>
       match d_wire s with
@@ -108,7 +109,10 @@ Definition sstep_R (s : side) : side :=
       let fin s1 := sset_r (fst (br_next (d_rbuf s))) (snd (br_next (d_rbuf s))) s1 in
       match p with
       | Q1 => sset_r (BR_P Q5 m) (d_rbuf s) s
-      | Q5 => sset_r (BR_P (match d_filt s with None => Q8l | Some _ => Q6 end) m) (d_rbuf s) s
+      | Q5 => sset_r (BR_P (match d_filt s with
+                            | None => Q8l
+                            | Some f => if lf then Q6 else if matches f m then Q7 else Q8l
+                            end) m) (d_rbuf s) s
       | Q6 => match d_filt s with
               | None => sset_r BR_Dead (d_rbuf s) s
               | Some f => sset_r (BR_P (if matches f m then Q7 else Q8l) m) (d_rbuf s) s
@@ -218,7 +222,7 @@ Inductive baction := BA | BR (d : dir) | BC (d : dir) | BX (d : dir) | BEmit (d 
 Definition bact (cfg : bconfig) (a : baction) (s : bstate) : bstate :=
   match a with
   | BA => bstep_A cfg s
-  | BR d => bupd d sstep_R s
+  | BR d => bupd d (sstep_R (legacy_filter cfg)) s
   | BC d => bupd d sstep_C s
   | BX d => bupd d sstep_X s
   | BEmit d => if quiet cfg && negb (bdone s) then s else bupd d semit s
@@ -278,7 +282,7 @@ Definition bcase := (bool * sdesc * sdesc * list N * (sobs * sobs * bool))%type.
 
 Definition brun_case (c : bcase) : sobs * sobs * bool :=
   let '(lc, di, do, sched, _) := c in
-  let s := brun (mkBC lc false) (map baction_of sched) (binit2 (side_of di) (side_of do)) in
+  let s := brun (mkBC lc false false) (map baction_of sched) (binit2 (side_of di) (side_of do)) in
   (sobs_of (b_in s), sobs_of (b_out s), bdone s).
 
 Definition bcheck_case (c : bcase) : bool :=
